@@ -26,7 +26,24 @@ def gen_feature(rng, fid):
             sid += 1
             scs.append(gen_scen(rng, sid if sid % 10 < 7 else sid + 3, rid))
             sid = scs[-1]["id"]
-    return dict(id=fid, empty_rules=rng.choice([0, 0, 1]), scenarios=scs)
+    f = dict(id=fid, empty_rules=rng.choice([0, 0, 1]), scenarios=scs, serial_feature=False, serial_rules=[])
+    for sc in scs:
+        sc["serial_own"] = sc["serial"]
+    # @serial inherited from the feature or from a rule (gherkin does not copy tags downwards: the classifier must look up)
+    x = rng.random()
+    if x < 0.08:
+        f["serial_feature"] = True
+        for sc in scs:
+            sc["serial"], sc["serial_own"] = True, rng.random() < 0.2
+    elif x < 0.2:
+        rids = sorted({sc["rule"] for sc in scs if sc["rule"] is not None})
+        if rids:
+            rid = rng.choice(rids)
+            f["serial_rules"] = [rid]
+            for sc in scs:
+                if sc["rule"] == rid:
+                    sc["serial"], sc["serial_own"] = True, False
+    return f
 
 
 def gen_one(rng):
@@ -147,7 +164,8 @@ def describe(case, res):
     k = case["conc_cli"] if case["conc_cli"] is not None else case["conc_builder"]
     keys = ["K=%s" % k, "parser=%s" % ("eager" if case["eager"] else "lazy"),
             "ff=%s" % (case["ff_cli"] or case["ff_builder"]),
-            "serial=%s" % any(sc["serial"] for sc in scs), "retry=%s" % any(sc["retry"] for sc in scs),
+            "serial=%s" % any(sc["serial"] for sc in scs),
+            "serial_inherited=%s" % any(sc["serial"] and not sc.get("serial_own", True) for sc in scs), "retry=%s" % any(sc["retry"] for sc in scs),
             "delay=%s" % any(sc["retry"] and sc["retry"][1] for sc in scs),
             "after_hook_failure=%s" % any(sc.get("afails") for sc in scs),
             "before_hook_failure=%s" % any(sc.get("bfails") for sc in scs),
@@ -158,7 +176,7 @@ def describe(case, res):
 
 
 RULE = ("cases = 1-3 features (0-3 top-level scenarios, 0-2 rules of 1-2 scenarios, empty rules) and 0-2 parser errors, each "
-        "scenario serial or not, with @retry(N) N in 0..2 optionally .after(30ms), failing its first k attempts, 1-2 gated steps; in 35% of the cases an after hook that panics in the first 1-2 attempts of "
+        "scenario serial or not (tag on the scenario, or inherited from its rule or feature), with @retry(N) N in 0..2 optionally .after(30ms), failing its first k attempts, 1-2 gated steps; in 35% of the cases an after hook that panics in the first 1-2 attempts of "
         "40% of the scenarios (a failed after hook alone makes the attempt a failed one), in 25% a before hook that panics — "
         "eagerly or inside its future — in the first 1-2 attempts of 30% of the scenarios (no step of that attempt runs); "
         "concurrency from CLI (none/1/2/3) and builder (default 64 / unlimited / 1 / 2 / 4), fail-fast from CLI and/or builder; "
